@@ -51,6 +51,10 @@ PROPOSED_KNOWN = [
      "what": "intConst.binaryOp: & | ^ &^ results are not checked against the 512-bit limit ((-1<<511) ^ (1<<511) accepted; gc: constant overflow)"},
     {"kind": "known", "signature": {"fam": "const", "fail": "crash", "root": "quo", "oc": "complex", "xf64": 0},
      "what": "complexConst.binaryOp division ignores the overflow error of c*c+d*d on integer parts: 1i / (1<<511) dereferences a nil *big.Int and panics in the host"},
+    {"kind": "known", "signature": {"fam": "const", "fail": "accepts-invalid", "opk": "shift", "kb": "u.float", "nb": "bin", "xf64": 0},
+     "what": "floatConst.representedBy(unsigned) trusts the accuracy of big.Float.Uint64, which reports Exact for a non-integer with a short mantissa: a computed shift count 7 - 1.5 is accepted as 5 (1 >> (7 - 1.5))"},
+    {"kind": "known", "signature": {"fam": "const", "fail": "accepts-invalid", "root": "conv", "to": "uint", "ka": "u.float", "na": "bin", "xf64": 0},
+     "what": "floatConst.representedBy(unsigned) trusts the accuracy of big.Float.Uint64 (see shift counts): uint8(7 - 1.5) is accepted as 5"},
     {"kind": "known", "signature": {"fam": "const", "fail": "crash", "root": "cpl", "ka": "uint"},
      "what": "constant.go maxUnsigned/maxBigUnsigned tables have no entry for uintptr: ^uintptr(1) panics in the host (index out of range [5] with length 5)"},
     {"kind": "known", "signature": {"fam": "const", "fail": "accepts-invalid", "root": "cpl", "ka": "u.int"},
@@ -127,7 +131,7 @@ def judge(ctx, step, recs, par=PAR):
     return bads, stats
 
 
-ECHO = ("expr", "src", "reflit", "vt", "dt")
+ECHO = ("expr", "src", "reflit", "vt", "dt", "ik")
 
 
 def case_from_obs(o):
@@ -142,13 +146,13 @@ def echoes(o, c):
 def show(o):
     return {"src": rig.b2s(o["src"]), "builds": o["builds"], "msg": rig.b2s(o["msg"])[:160], "chk": o["chk"],
             "chkmsg": rig.b2s(o["chkmsg"])[:160], "reflit": rig.b2s(o["reflit"])[:80], "eq": o["eq"],
-            "vt": o["vt"], "v": o["v"] if o["hasv"] else None, "dtobs": o["dtobs"]}
+            "vt": o["vt"], "v": o["v"] if o["hasv"] else None, "dtobs": o["dtobs"], "ikobs": o["ikobs"]}
 
 
 def same_outcome(a, b):
     """scriggo observation vs oracle observation of the same programs"""
     return (a["builds"] == b["builds"] and a["eq"] == b["eq"] and a["hasv"] == b["hasv"]
-            and a["v"] == b["v"] and a["dtobs"] == b["dtobs"]
+            and a["v"] == b["v"] and a["dtobs"] == b["dtobs"] and a["ikobs"] == b["ikobs"]
             and (a["builds"] != "ok" or (a["chk"] == "ran") == (b["chk"] == "ran"))
             and all(same_outcome(x, y) for x, y in zip(a["kids"], b["kids"])))
 
